@@ -6,8 +6,11 @@ import importlib
 class Ground:
     """a ground (finite, exhaustively evaluated) obligation"""
 
-    def __init__(self, name, ok, detail="", witness=None):
+    def __init__(self, name, ok, detail="", witness=None, native=None):
+        # native: the witness is an input that fails when run on the real code (a program, a value, a table key);
+        # False for syntactic obligations, whose witness only names the offending construct
         self.name, self.ok, self.detail, self.witness = name, ok, detail, witness
+        self.native = (witness is not None) if native is None else native
 
 
 class Prop:
